@@ -18,14 +18,12 @@ type closure struct {
 	pkg  *types.Package
 }
 
-var closures = map[string]*closure{}
 
 type boundMethod struct {
 	fn   *types.Func
 	recv Value
 }
 
-var boundMethods = map[string]*boundMethod{}
 
 func (ex *Exec) inContract() bool { return ex.contractMode > 0 }
 
@@ -81,7 +79,7 @@ func (ex *Exec) evalN(p *Path, e ast.Expr, multi bool) []Value {
 		return ex.evalTypeAssert(p, x, multi)
 	case *ast.FuncLit:
 		r := ex.c.Fresh("closure", "Ref")
-		closures[r] = &closure{lit: x, info: ex.info, pkg: ex.pkg}
+		ex.closures[r] = &closure{lit: x, info: ex.info, pkg: ex.pkg}
 		var t types.Type
 		if ex.info != nil {
 			t = ex.info.TypeOf(x)
@@ -555,7 +553,7 @@ func (ex *Exec) selectMember(p *Path, base Value, name string, pos token.Pos) Va
 		return cur
 	case *types.Func:
 		r := ex.c.Fresh("mval:"+o.Name(), "Ref")
-		boundMethods[r] = &boundMethod{fn: o, recv: base}
+		ex.boundMethods[r] = &boundMethod{fn: o, recv: base}
 		return Value{r, o.Type()}
 	}
 	ex.unsupp(pos, "selector object %T", obj)
